@@ -18,7 +18,10 @@ ALSO = {"C15_m1": ["C05", "C01"], "C01_m2": ["C08", "C06"], "C02_m2": ["C01", "C
         "C12_m5": ["C05", "C01"], "C15_m5": ["C05", "C01"], "C16_m5": ["C06", "C09"], "C17_m5": ["C12"], "C18_m5": ["C01", "C12"],
         "C01_m6": ["C04"], "C02_m6": ["C11", "C01"], "C03_m6": ["C10"], "C04_m6": ["C08", "C01"], "C05_m6": ["C01", "C15"], "C06_m6": ["C01"],
         "C07_m6": ["C01", "C09"], "C08_m6": ["C14", "C01"], "C09_m6": ["C06"], "C10_m6": ["C06", "C11"], "C11_m6": ["C02", "C09"],
-        "C15_m6": ["C03", "C01"], "C16_m6": ["C08", "C06"], "C18_m6": ["C03", "C01"], "C19_m6": ["C05", "C01"]}
+        "C15_m6": ["C03", "C01"], "C16_m6": ["C08", "C06"], "C18_m6": ["C03", "C01"], "C19_m6": ["C05", "C01"],
+        "C01_m7": ["C06"], "C02_m7": ["C11", "C01"], "C03_m7": ["C01"], "C04_m7": ["C01", "C11"], "C05_m7": ["C01", "C15"], "C06_m7": ["C11"],
+        "C07_m7": ["C01", "C15"], "C08_m7": ["C01", "C04"], "C09_m7": ["C14", "C06"], "C10_m7": ["C05", "C15"], "C11_m7": ["C02", "C06"],
+        "C15_m7": ["C03"], "C16_m7": ["C11", "C04"], "C18_m7": ["C03", "C01"], "C20_m7": ["C12"]}
 
 
 def needs_of(notes: str) -> str:
